@@ -293,6 +293,10 @@ type Config struct {
 	ReplayEvery int       // replay every n-th execution (1 = all, default 1)
 	Check       func(outcome string, deadlock bool, choices []int) error
 	OnExec      func()
+	// OnRun is called with the schedule prefix before every execution (used to leave an
+	// in-flight record: code under test that spins without ever blocking cannot be stopped
+	// from inside the process).
+	OnRun func(prefix []int)
 	// Shard/Shards split the level-1 subtrees of the schedule tree over worker processes.
 	Shard, Shards int
 }
@@ -360,6 +364,9 @@ func Explore(t *testing.T, cfg Config) (*Stats, error) {
 		if !cfg.Deadline.IsZero() && time.Now().After(cfg.Deadline) {
 			st.Exhaustive, st.CapHit = false, "time budget"
 			return false
+		}
+		if cfg.OnRun != nil {
+			cfg.OnRun(prefix)
 		}
 		s, out, dl := RunOnce(t, cfg, prefix)
 		st.Executions++
